@@ -349,6 +349,22 @@ def realRootsLow [DecidableEq α] [LT α] [DecidableLT α] (sqrt : α → α) (p
 
 end Poly
 
+namespace Poly
+variable [Add α] [Div α] [Neg α] [NatCast α] [LT α] [DecidableLT α]
+
+/-- `math.Abs` / `math.Max` on ordinary values. -/
+def absP (x : α) : α := if x < ((0 : Nat) : α) then -x else x
+def maxP (a b : α) : α := if a < b then b else a
+
+/-- The search window of the bracketing branch of `IterRealRoots` (degree ≥ 4), "Cauchy's bound
+for real roots": `absBound = max_i |p[i]/p[len-1]|` over the non-leading coefficients, `+ 1`.
+All real roots are looked for inside `[-absBound, absBound]`. -/
+def cauchyBound (p : List α) : α :=
+  let a := p.getLastD ((0 : Nat) : α)
+  p.dropLast.foldl (fun acc x => maxP acc (absP (x / a))) ((0 : Nat) : α) + ((1 : Nat) : α)
+
+end Poly
+
 /-! ## `toolbox3d/angles.go` with an abstract period `τ` (Go: `2*math.Pi`) -/
 
 namespace Angle
